@@ -307,3 +307,17 @@ func TestVerif(t *testing.T) {
 		}
 	}
 }
+
+// vfKeepSchedule stores the released-task sequence of a failing coop run in the case, so that
+// the replay follows exactly the same schedule (and the shrinker can cut it).
+func vfKeepSchedule(res *vfResult, strat *simrt.Strategy, trace []simrt.Step, c any) {
+	if res.Verdict != "violation" || strat.UseScr {
+		return
+	}
+	strat.Script = nil
+	for _, st := range trace {
+		strat.Script = append(strat.Script, st.Task)
+	}
+	strat.UseScr = true
+	res.Case, _ = json.Marshal(c)
+}
